@@ -32,6 +32,8 @@
 //	CQ1-3 SQ1-3        bad frame sequences: CONTINUATION alone; DATA / another HEADERS inside a header block
 //	CW1-5 SW1-5        frames on the wrong stream / malformed: DATA on 0, WINDOW_UPDATE +0, RST_STREAM on 0,
 //	                   SETTINGS length 4, HEADERS on 0
+//	cmf/smf:<val>:<a|l>  SETTINGS with MAX_FRAME_SIZE <val>, alone or after legal entries; a value outside
+//	                   [16384, 2^24-1] is a connection error (RFC 7540 6.5.2), a legal one is forwarded
 //	RFC                the proxy's reads from the client fail (not EOF); writes toward the client keep working
 //	PF:<c|s>:<H|D|R|P>:<n>  (configuration) a StreamProcessorFactory whose processor for that direction returns
 //	                   an error from the n-th Header / Data / RSTStream / PushPromise call
@@ -519,6 +521,11 @@ func terminating(op string) bool {
 		if len(p) > 3 && (p[1:3] == "hb" || p[1:3] == "pb") && p[3] == ':' {
 			return true
 		}
+		if len(p) > 4 && p[1:4] == "mf:" {
+			if v, err := strconv.ParseUint(strings.Split(p, ":")[1], 10, 64); err != nil || v < 16384 || v > 1<<24-1 {
+				return true
+			}
+		}
 		switch p {
 		case "CQ1", "CQ2", "CQ3", "SQ1", "SQ2", "SQ3", "CW1", "CW2", "CW3", "CW4", "CW5", "SW1", "SW2", "SW3", "SW4", "SW5":
 			return true
@@ -722,6 +729,17 @@ func (s *session) issue(op string) {
 		s.side(f[0][0]).do(func(fr *http2.Framer) error {
 			return fr.WriteRawFrame(http2.FrameHeaders, http2.FlagHeadersEndHeaders, 0, hpackOK)
 		})
+	case "cmf", "smf": // SETTINGS announcing MAX_FRAME_SIZE <val>, alone (a) or after legal entries (l)
+		val := uint32(arg(1))
+		if v, err := strconv.ParseUint(f[1], 10, 32); err == nil {
+			val = uint32(v)
+		}
+		set := []http2.Setting{{ID: http2.SettingMaxFrameSize, Val: val}}
+		if len(f) > 2 && f[2] == "l" {
+			set = []http2.Setting{{ID: http2.SettingMaxConcurrentStreams, Val: 10}, {ID: http2.SettingHeaderTableSize, Val: 4096},
+				{ID: http2.SettingMaxFrameSize, Val: val}}
+		}
+		s.side(f[0][0]).do(func(fr *http2.Framer) error { return fr.WriteSettings(set...) })
 	case "RFC":
 		s.proxyEnd.failReads()
 	case "PF", "GRPC": // configuration, consumed before the session starts
